@@ -215,6 +215,16 @@ def o_ibe(s, ctx, v, out):
     elif not changed:
         if rc != '0' or s.out.get('pt') != s.msg:
             v.bad('roundtrip', 'honest ciphertext: rc=%s plaintext %s (sent %s)' % (rc, s.out.get('pt', b'').hex()[:60], s.msg.hex()[:60]))
+    if 'ct' in s.m and s.m['ct'].get('sent') is not None:
+        # a ciphertext is one uncompressed G1 point and 1..32 masked bytes: anything outside that range has a
+        # wrong length whatever its contents, and must be refused rather than produce data
+        n = len(s.m['ct']['sent'])
+        fb = ctx['param']['fpbytes']
+        lo, hi = 2 * fb + 2, 2 * fb + 1 + 32
+        if n < lo or n > hi:
+            out.fault('ciphertext-of-inadmissible-length')
+            if rc == '0':
+                v.bad('wrong-length-accepted', 'a %d-byte ciphertext (admissible: %d..%d) was decrypted to %d bytes' % (n, lo, hi, len(s.out.get('pt', b''))))
 
 
 def o_bgn(s, ctx, v, out):
@@ -352,7 +362,7 @@ GTH = ([('g0', k) for k in P.GT_FAULTS] + [('g1', k) for k in P.GT_FAULTS] + [('
 
 SCHEMES.update({
     'ghpe': Spec('C06', 7, dict(), o_agg(lambda s: s.key['n'] ** (1 + int(s.opts.get('cls', 0)) % 3)), opts=aggopts, extra_faults=AGGF),
-    'bdpe': Spec('C06', 7, dict(), o_agg(lambda s: 0xFB), opts=lambda rng: dict(k=rng.randint(1, 4), n=rng.below(2), mlen=8),
+    'bdpe': Spec('C06', 7, dict(), o_agg(lambda s: s.out.get('block', 0xFB)), opts=lambda rng: dict(k=rng.randint(1, 4), n=rng.below(2), mlen=8, ord=rng.below(8)),
                  extra_faults=AGGF),
     'rabin': Spec('C06', 4, dict(ct='bytes'), o_rabin, opts=lambda rng: dict(mlen=rng.choice([1, 2, 10, 31, 32, 33, 60, 80, 84, 85]))),
     'ibe': Spec('C06', 6, dict(pub='g1', prv='g2', ct='bytes'), o_ibe, pc=True,
